@@ -316,3 +316,11 @@ H("c15_abs", module="verif_arm64.rs", props=["C15", "C13", "C17"], fns=[(A64P, "
 H("c15_bool", module="verif_arm64.rs", props=["C15", "C10", "C13"], fns=[(A64P, "generate_will_return_boolean_jit_code"), (A64P, "write_instruction")] + _GEN_FNS)
 H("c11_a64_range", module="verif_arm64.rs", props=["C11", "C15", "C12", "C02"], fns=[(A64P, "apply_branch_patch"), (COM, "patch_function", 0)], covers=["COVER:end", "COVER:lowest", "COVER:highest"])
 H("c15_a64_out_of_range_refused", module="verif_arm64.rs", props=["C15", "C11", "C05"], fns=[(A64P, "apply_branch_patch")], expects_panic=True, covers=[], covers_unreachable=["COVER:wrapped-branch-written"])
+
+ARM = "injector_core/patch_arm.rs"
+TB_A32 = "A32/T32 decoder for LDR (literal), BX, NOP incl. Align(PC,4), and the AAPCS32 callee-saved set (verif_rt::oracle)"
+_ARM_FNS = [(ARM, "replace_function_with_other_function"), (ARM, "replace_function_return_boolean")]
+_ARM_ASSUME = "read_bytes / patch_function replaced by recorders (32-bit addresses are not host pointers)"
+for _n in ["c16_a32", "c16_t32_aligned", "c16_t32_unaligned"]:
+    H(_n, module="verif_arm.rs", props=["C16"], fns=_ARM_FNS, min_obligations=9)
+H("c16_bool", module="verif_arm.rs", props=["C16", "C10"], fns=_ARM_FNS)
